@@ -39,6 +39,13 @@ class C14(Prop):
                 if g.startswith("violation:"):
                     out.append(viol("a save killed by SIGKILL was neither complete nor absent: " + g, cops, cgo, upto=i))
                     break
+                if op.startswith("ps.parallel"):
+                    r_ = kv(g)
+                    if r_.get("bad", "0") != "0" or r_.get("failed", "0") != "0":
+                        out.append(viol(f"saves of different fans' entries in flight at once: {r_.get('bad')} entries came back different from "
+                                        f"what was saved (or not at all), {r_.get('failed')} saves failed", cops, cgo, upto=i))
+                        break
+                    continue
                 a = kv(op)
                 name_ = op.split()[0] if op else ""
                 kind = "rpm" if (name_.endswith("rpm") or a.get("kind") == "rpm") else "map"
